@@ -145,7 +145,10 @@ def run(prop, tier, seed, rep):
         if rng.random() < 0.15:
             # ... including the positions from which the frame straddles a multiple of 2^32
             inp["base"] = rng.choice(([1, 2147483600], [2, 0], [2, 17], [5, 123], [1023, 99], [1, 2147483647], [1, 2147483646], [1, 2147483645],
-                                      [1, 2147483644], [1, 2147483641], [3, 2147483647], [3, 2147483645], [1, 2147483635]))
+                                      [1, 2147483644], [1, 2147483641], [3, 2147483647], [3, 2147483645], [1, 2147483635],
+                                      # ... and of 2^63 (signed 64-bit arithmetic), and far beyond it
+                                      [4294967295, 2147483647], [4294967295, 2147483646], [4294967295, 2147483645], [4294967295, 2147483644],
+                                      [4294967295, 2147483630], [4294967296, 5], [8589934590, 77]))
             inp["tag"] = "far"
         # a failure that is not transient: one read (script entry -1) or the n-th seek fails for good
         if rng.random() < 0.1:
